@@ -653,6 +653,17 @@ func (r *rewriter) rewriteFile() {
 	r.file.Decls = decls
 }
 
+// mutatorName: method names of standard-library containers and buffers that modify their receiver.
+func mutatorName(n string) bool {
+	for _, p := range []string{"Write", "Reset", "Grow", "Truncate", "Read", "Unread", "Next", "Set", "Add", "Push", "Pop", "Insert", "Remove", "Delete",
+		"Clear", "Init", "Swap", "Store", "Put", "Append", "Move", "Seek", "Scan", "Unmarshal", "Decode", "Fix", "Sort", "Shuffle", "Seed", "Lock", "Unlock", "Do"} {
+		if strings.HasPrefix(n, p) {
+			return true
+		}
+	}
+	return false
+}
+
 func atomicFn(n string) bool {
 	for _, p := range []string{"Load", "Store", "Add", "Swap", "CompareAndSwap"} {
 		if strings.HasPrefix(n, p) {
@@ -1274,7 +1285,9 @@ func (r *rewriter) expr(e ast.Expr, mode int) ast.Expr {
 					foreign := false
 					if fn, ok := sel.Obj().(*types.Func); ok && fn.Pkg() != nil {
 						pp := fn.Pkg().Path()
-						foreign = pp != modPath && !strings.HasPrefix(pp, modPath+"/")
+						// (methods promoted from an embedded sync.Mutex / RWMutex / atomic value are the simulated
+						// primitives themselves, not data accesses)
+						foreign = pp != modPath && !strings.HasPrefix(pp, modPath+"/") && pp != "sync" && pp != "sync/atomic"
 					}
 					if foreign && !isSyncType(baseT) && r.addressable(orig) && r.sharedBase(orig) {
 						ptrRecv := false
@@ -1285,7 +1298,9 @@ func (r *rewriter) expr(e ast.Expr, mode int) ast.Expr {
 						}
 						name := r.describe(orig)
 						cls, fnName := "FIELD_R", "R"
-						if ptrRecv {
+						// a pointer receiver alone does not make a call a write ((*strings.Builder).String,
+						// (*bytes.Buffer).Len read only): count it as a write only if the method name says so
+						if ptrRecv && mutatorName(x.Sel.Name) {
 							cls, fnName = "FIELD_W", "W"
 						}
 						if _, isSel := unparen(orig).(*ast.SelectorExpr); !isSel || r.info().Selections[unparen(orig).(*ast.SelectorExpr)] == nil {
